@@ -227,6 +227,10 @@ class Polylist(primitive.Primitive):
 
     def __getitem__(self, i):
         polyrange = self.polyindex[i]
+        if self._vertex_index is None:
+            # an index-less polylist has no array views; its polygons (vcount 0) have no corners
+            return Polygon(numpy.zeros(0, dtype=numpy.int32), numpy.zeros((0, 3), dtype=numpy.float32),
+                           None, None, [], [], self.material)
         vertindex = self._vertex_index[polyrange[0]:polyrange[1]]
         v = self._vertex[vertindex]
 
@@ -357,6 +361,10 @@ class BoundPolylist(primitive.BoundPrimitive):
 
     def __getitem__(self, i):
         polyrange = self.polyindex[i]
+        if self._vertex_index is None:
+            # an index-less polylist has no array views; its polygons (vcount 0) have no corners
+            return Polygon(numpy.zeros(0, dtype=numpy.int32), numpy.zeros((0, 3), dtype=numpy.float32),
+                           None, None, [], [], self.material)
         vertindex = self._vertex_index[polyrange[0]:polyrange[1]]
         v = self._vertex[vertindex]
 
